@@ -753,12 +753,18 @@ impl GlobalInferenceCtx<'_> {
                 // ),
                 _ => ExprMutability::ImmutableRef(self.bodies.range_for_expr(expr)),
             },
-            Expr::Deref { pointer } => self.get_mutability(*pointer, assignment, true),
-            Expr::Index { source: array, .. } => self.get_mutability(
-                *array,
-                assignment,
-                deref || self.tys[self.loc][*array].is_pointer(),
-            ),
+            Expr::Deref { pointer } => {
+                let through = self.get_mutability(*pointer, assignment, true);
+                self.only_through_mut_pointers(*pointer, false, through)
+            }
+            Expr::Index { source: array, .. } => {
+                let through = self.get_mutability(
+                    *array,
+                    assignment,
+                    deref || self.tys[self.loc][*array].is_pointer(),
+                );
+                self.only_through_mut_pointers(*array, true, through)
+            }
             Expr::Block {
                 tail_expr: Some(tail_expr),
                 ..
@@ -846,11 +852,14 @@ impl GlobalInferenceCtx<'_> {
                             ExprMutability::ImmutableRef(field.range)
                         }
                     }
-                    _ => self.get_mutability(
-                        *previous,
-                        assignment,
-                        deref || previous_ty.is_pointer(),
-                    ),
+                    _ => {
+                        let through = self.get_mutability(
+                            *previous,
+                            assignment,
+                            deref || previous_ty.is_pointer(),
+                        );
+                        self.only_through_mut_pointers(*previous, true, through)
+                    }
                 }
             }
             // the result of a call or cast is only mutable through a `^mut` pointer
@@ -892,6 +901,37 @@ impl GlobalInferenceCtx<'_> {
             }
             _ => ExprMutability::CannotMutateExpr(self.bodies.range_for_expr(expr)),
         }
+    }
+
+    /// `expr` is being dereferenced: once by `^`, or automatically by `.field` or `[index]`, which
+    /// go through all the pointers there are (`auto_deref`).
+    ///
+    /// Whatever a pointer was made from and wherever it is stored, nothing can be changed
+    /// through a `^T`, only a `^mut T` allows that. So even if everything else says that the
+    /// place is mutable, the type of `expr` has the last word
+    /// (`arr :: .[^a]; arr[0]^ = 5;`, `p : ^i32 = ^mut y; p^ = 7;`, `pp : ^mut ^S; pp.x = 9;`)
+    fn only_through_mut_pointers(
+        &self,
+        expr: Idx<Expr>,
+        auto_deref: bool,
+        through: ExprMutability,
+    ) -> ExprMutability {
+        if !matches!(through, ExprMutability::Mutable) {
+            return through;
+        }
+
+        let mut ty = self.tys[self.loc][expr];
+        while let Some((mutable, sub_ty)) = ty.as_pointer() {
+            if !mutable {
+                return ExprMutability::ImmutableRef(self.bodies.range_for_expr(expr));
+            }
+            if !auto_deref {
+                break;
+            }
+            ty = sub_ty;
+        }
+
+        through
     }
 
     fn find_usages(&mut self, exprs: &[Idx<hir::Expr>], local_usage: Idx<hir::Stmt>) {
